@@ -183,6 +183,42 @@ def v_derived_inst():
     return DerivedInst, {}
 
 
+CONST_G = 1
+
+
+def _read_const():
+    return CONST_G
+
+
+def _global_design(value):
+    """one entity class whose context calls a module-level function reading a module global: the design is the entity
+    together with the value the global has when it is compiled (`prepare` runs before every compilation)"""
+    if "glob" not in _shared:
+        class GlobalConst(Entity):
+            o = Port.output(Unsigned[8])
+
+            def architecture(self):
+                @std.concurrent
+                def logic():
+                    self.o <<= _read_const()
+
+        _shared["glob"] = GlobalConst
+
+    def prepare():
+        global CONST_G
+        CONST_G = value
+
+    return _shared["glob"], {"prepare": prepare}
+
+
+def v_global_one():
+    return _global_design(1)
+
+
+def v_global_two():
+    return _global_design(2)
+
+
 def v_open_entity():
     class Sub(Entity):
         x = Port.input(Bit)
@@ -301,7 +337,7 @@ def r_drivers():
     return BadDrv, {}
 
 
-VALID = ["v_comb", "v_coroutine", "v_prefix", "v_named", "v_reserved", "v_hier", "v_open_entity", "v_commented", "v_base_port", "v_derived_inst", "v_aliased_signal"]
+VALID = ["v_comb", "v_coroutine", "v_prefix", "v_named", "v_reserved", "v_hier", "v_open_entity", "v_commented", "v_base_port", "v_derived_inst", "v_aliased_signal", "v_global_one", "v_global_two"]
 REJECTED = ["r_statemachine", "r_context", "r_prefix", "r_architecture", "r_drivers"]
 _cache = {}
 
@@ -311,6 +347,10 @@ def compile_one(name):
     if name not in _cache:
         _cache[name] = globals()[name]()
     E, kw = _cache[name]
+    kw = dict(kw)
+    prepare = kw.pop("prepare", None)
+    if prepare is not None:
+        prepare()
     try:
         text = std.VhdlCompiler.to_string(E, **kw)
     except AssertionError as e:
